@@ -4,7 +4,8 @@
 //!   stack measure <kind> <limit>            -> {"kind":..,"limit":..,"levels":N,"bytes_per_level":B,"error":".."}
 //!   stack run <kind> <limit> <stack_bytes>  -> prints "ok: <error text>" if the render ended with an error
 //!                                              value; the process dies (SIGSEGV/abort) on stack overflow
-//! kinds: macro, callblock, include, import_macro, block, macro_include
+//! kinds: macro, callblock, include, import_macro, block, macro_include, import_cycle, include_discarded,
+//!        include_after_partial, macro_after_partial, loop_recursive
 use minijinja::{Environment, Error, State};
 use std::sync::Mutex;
 
@@ -28,16 +29,46 @@ fn env_for(kind: &str, limit: usize) -> (Environment<'static>, &'static str) {
         "block" => ("a", "{% block b %}{{ probe() }}{{ self.b() }}{% endblock %}"),
         "macro_include" => ("a", "{% macro m() %}{{ probe() }}{% include 'a' %}{% endmacro %}{{ m() }}"),
         "import_macro" => ("a", "{% macro m() %}{{ probe() }}{% from 'a' import m as n %}{{ n() }}{% endmacro %}{{ m() }}"),
+        // a template importing from itself: the import runs the imported template with output discarded
+        "import_cycle" => ("a", "{{ probe() }}{% from 'a' import x %}"),
+        // an include cycle entered while output is discarded (after `extends` in a child template)
+        "include_discarded" => ("child", "{% extends 'base' %}{% include 'cyc' %}"),
+        // every level completes a harmless include before it recurses
+        "include_after_partial" => ("a", "{{ probe() }}{% include 'partial' %}{% include 'a' %}"),
+        "macro_after_partial" => ("a", "{% macro m() %}{{ probe() }}{% include 'partial' %}{{ m() }}{% endmacro %}{{ m() }}"),
+        // a recursive for loop over deeply nested data (the data comes from the render context, see render())
+        "loop_recursive" => ("a", "{% for x in t recursive %}{{ probe() }}{{ loop(x.c) }}{% endfor %}"),
         _ => panic!("unknown kind"),
     };
     env.add_template(name, src).unwrap();
+    env.add_template("partial", "p").unwrap();
+    env.add_template("base", "B{% block b %}{% endblock %}").unwrap();
+    env.add_template("cyc", "{{ probe() }}{% include 'cyc' %}").unwrap();
     (env, name)
 }
 
 fn render(kind: String, limit: usize) -> String {
     let (env, name) = env_for(&kind, limit);
     let t = env.get_template(name).unwrap();
-    match t.render(()) {
+    // nested data for loop_recursive: 700 levels of {c: [..]}
+    let mut node = {
+        let mut m = std::collections::BTreeMap::new();
+        m.insert("c", minijinja::Value::from(Vec::<minijinja::Value>::new()));
+        minijinja::Value::from(m)
+    };
+    if kind == "loop_recursive" {
+        for _ in 0..700 {
+            let mut m = std::collections::BTreeMap::new();
+            m.insert("c", minijinja::Value::from(vec![node]));
+            node = minijinja::Value::from(m);
+        }
+    }
+    let ctx = {
+        let mut m = std::collections::BTreeMap::new();
+        m.insert("t", minijinja::Value::from(vec![node]));
+        minijinja::Value::from(m)
+    };
+    match t.render(ctx) {
         Ok(_) => "rendered".to_string(),
         Err(e) => {
             let mut msg = format!("{}", e);
